@@ -133,6 +133,11 @@ struct carquet_column_reader {
 
     /* Retained page data for BYTE_ARRAY value pointers */
     uint8_t* page_data_for_values;
+    /* Page buffers of earlier pages that values returned by the read call in
+     * progress may still point into; released when the next read call starts */
+    uint8_t** retired_page_data;
+    int32_t num_retired_page_data;
+    int32_t retired_page_data_capacity;
 
     /* Current page state for partial reads */
     bool page_loaded;           /* Is a page currently loaded? */
@@ -180,6 +185,11 @@ void carquet_mmap_close(carquet_mmap_info_t* mmap_info);
  * Check if a page is eligible for zero-copy reading.
  * Requires: uncompressed, PLAIN encoding, fixed-size type.
  */
+/* Replace the retained BYTE_ARRAY page buffer, keeping the old one alive until
+ * carquet_column_release_retired_pages() is called. */
+void carquet_column_retain_page_data(carquet_column_reader_t* reader, uint8_t* page_data);
+void carquet_column_release_retired_pages(carquet_column_reader_t* reader);
+
 bool carquet_page_is_zero_copy_eligible(
     carquet_compression_t codec,
     carquet_encoding_t encoding,
